@@ -27,13 +27,17 @@ class Mat:
         self.lines_of = {}                    # file id -> list (per item) of physical lines
         self.text = {}
         os.makedirs(self.root)
-        for fid, f in scen["files"].items():
+        for fid, f in sorted(scen["files"].items(), key=lambda kv: bool(kv[1].get("copyof"))):
             d = self.dir_path(f["dir"])
             os.makedirs(d, exist_ok=True)
             path = os.path.join(d, f["name"])
             rnd = random.Random(f"{seed}-{fid}")
-            text, lines_of = render.render_c(f["items"], seed=rnd.random(), uid="v" + "".join(c for c in fid if c.isalnum()),
-                                             plain=plain)
+            if f.get("copyof"):
+                # a byte-identical copy of another file of the tree
+                text, lines_of = self.text[f["copyof"]], self.lines_of[f["copyof"]]
+            else:
+                text, lines_of = render.render_c(f["items"], seed=rnd.random(), uid="v" + "".join(c for c in fid if c.isalnum()),
+                                                 plain=plain)
             with open(path, "w") as fh:
                 fh.write(text)
             self.paths[fid] = os.path.realpath(path)
